@@ -22,6 +22,9 @@ type MemBFSConfig struct {
 	OnState    func(path []int, w *World)
 	Stop       func() bool
 	AuditDepth int
+	// Priority (optional): within one level, jobs with a higher priority run first (a deadline then cuts
+	// the low-priority part of the level)
+	Priority func(op int) int
 }
 
 type memState struct {
@@ -49,6 +52,9 @@ func MemBFS(cfg MemBFSConfig) mc.BFSStats {
 			for _, op := range cfg.OpsFor(s.path, s.w.Info()) {
 				jobs = append(jobs, job{pi, op})
 			}
+		}
+		if cfg.Priority != nil {
+			sort.SliceStable(jobs, func(a, b int) bool { return cfg.Priority(jobs[a].op) > cfg.Priority(jobs[b].op) })
 		}
 		type res struct {
 			run  bool
